@@ -1,3 +1,4 @@
+mod asm;
 mod orch;
 mod proc;
 mod readers;
